@@ -4,6 +4,8 @@ run by tools/translate/fpref.py, C semantics in `SqiModel.FpRefSem`) equal the v
 C07 theorems are about.  If the C text changes meaning, the generated definitions change and these proofs stop building.
 -/
 import Mathlib.Tactic.Ring
+import Mathlib.Tactic.LinearCombination
+import Mathlib.Tactic.Zify
 import SqiGen.FpRef
 import SqiProofs.GfRefExp
 
@@ -410,5 +412,206 @@ theorem fp_select_eq (P : RefParams) (d a0 a1 ctl : Nat) (hd : d < P.R) (h0 : a0
   rw [store_loop P.n 0 _ d P.n (Nat.zero_le _) (Nat.le_refl _) j hj, if_pos ⟨Nat.zero_le _, hj⟩,
     limb_xor, limb_and, limb_xor, limb_replLimb _ _ _ hc hj]
   exact Nat.mod_eq_of_lt (Nat.xor_lt_two_pow (limb_lt _ _) (Nat.and_lt_two_pow _ (Nat.xor_lt_two_pow (limb_lt _ _) (limb_lt _ _))))
+
+/-! ## `fp_neg`: the SUBC borrow loop -/
+
+theorem subc_spec (x y b : Nat) (hx : x < 2 ^ 64) (hy : y < 2 ^ 64) (hb : b ≤ 1) :
+    (subc x y b).1 < 2 ^ 64 ∧ (subc x y b).2 ≤ 1 ∧ (subc x y b).1 + y + b = x + 2 ^ 64 * (subc x y b).2 := by
+  have ht : subw 64 x y = if y ≤ x then x - y else x + 2 ^ 64 - y := by unfold subw; split <;> omega
+  have htl : subw 64 x y < 2 ^ 64 := by unfold subw; omega
+  have hl : is_digit_lessthan_ct x y = if x < y then 1 else 0 := by
+    unfold is_digit_lessthan_ct; rw [Nat.mod_eq_of_lt hx, Nat.mod_eq_of_lt hy]
+  have hz : is_digit_zero_ct (subw 64 x y) = if x = y then 1 else 0 := by
+    unfold is_digit_zero_ct; rw [Nat.mod_eq_of_lt htl, ht]
+    by_cases h1 : y ≤ x
+    · rw [if_pos h1]; by_cases h2 : x = y
+      · rw [if_pos h2, if_pos (by omega)]
+      · rw [if_neg h2, if_neg (by omega)]
+    · rw [if_neg h1, if_neg (by omega), if_neg (by omega)]
+  have hd : ∀ c, c ≤ 1 → subw 64 (subw 64 x y) (u64 c) = (subw 64 x y + 2 ^ 64 - c) % 2 ^ 64 := by
+    intro c hc; unfold u64; generalize subw 64 x y = t at htl ⊢; unfold subw; omega
+  unfold subc
+  simp only [hl, hz, hd b hb]
+  have hb' : b = 0 ∨ b = 1 := by omega
+  rcases hb' with rfl | rfl
+  · simp only [Nat.zero_and, Nat.or_zero]
+    rw [ht]
+    by_cases h1 : x < y
+    · rw [if_pos h1, if_neg (by omega)]; omega
+    · rw [if_neg h1, if_pos (by omega)]; omega
+  · rw [ht]
+    by_cases h1 : x < y
+    · rw [if_pos h1, if_neg (by omega), if_neg (by omega)]
+      refine ⟨by omega, by decide, ?_⟩
+      have : (1 ||| 1 &&& 0) = 1 := by decide
+      rw [this]; omega
+    · rw [if_neg h1, if_pos (by omega)]
+      by_cases h2 : x = y
+      · rw [if_pos h2]
+        have : (0 ||| 1 &&& 1) = 1 := by decide
+        rw [this]; omega
+      · rw [if_neg h2]
+        have : (0 ||| 1 &&& 0) = 0 := by decide
+        rw [this]; omega
+
+theorem mod_succ_limb (x m : Nat) : x % 2 ^ (64 * (m + 1)) = x % 2 ^ (64 * m) + 2 ^ (64 * m) * limb x m := by
+  have e : 2 ^ (64 * (m + 1)) = 2 ^ (64 * m) * 2 ^ 64 := by rw [Nat.mul_succ, Nat.pow_add]
+  rw [e, Nat.mod_mul]; rfl
+
+theorem mod_eq_of_limbs (m x y : Nat) (h : ∀ j < m, limb x j = limb y j) : x % 2 ^ (64 * m) = y % 2 ^ (64 * m) := by
+  rw [← ofLimbs_limb, ← ofLimbs_limb]; exact ofLimbs_congr m _ _ h
+
+theorem neg_loop (P : RefParams) (a out : Nat) (m : Nat) (hm : m ≤ P.n) :
+    (loopAcc 0 m (SqiGen.FpRef.fp_neg_loop_1 P a) (out, 0)).2 ≤ 1 ∧
+    (loopAcc 0 m (SqiGen.FpRef.fp_neg_loop_1 P a) (out, 0)).1 % 2 ^ (64 * m) + a % 2 ^ (64 * m) =
+      P.p % 2 ^ (64 * m) + 2 ^ (64 * m) * (loopAcc 0 m (SqiGen.FpRef.fp_neg_loop_1 P a) (out, 0)).2 := by
+  induction m with
+  | zero => rw [loopAcc_zero]; simp [Nat.mod_one]
+  | succ m ih =>
+    obtain ⟨ib, ie⟩ := ih (by omega)
+    rw [loopAcc_succ 0 m (Nat.zero_le _)]
+    generalize loopAcc 0 m (SqiGen.FpRef.fp_neg_loop_1 P a) (out, 0) = s at ib ie ⊢
+    obtain ⟨o, b⟩ := s
+    simp only at ib ie
+    obtain ⟨c1, c2, c3⟩ := subc_spec (limb P.p m) (limb a m) b (limb_lt _ _) (limb_lt _ _) ib
+    have hstep : SqiGen.FpRef.fp_neg_loop_1 P a (o, b) m =
+        (setLimb P.n o m (subc (limb P.p m) (limb a m) b).1, (subc (limb P.p m) (limb a m) b).2) := by
+      simp only [SqiGen.FpRef.fp_neg_loop_1, u32]
+      rw [Nat.mod_eq_of_lt (by omega : (subc (limb P.p m) (limb a m) b).2 < 2 ^ 32)]
+    rw [hstep]
+    refine ⟨c2, ?_⟩
+    simp only
+    rw [mod_succ_limb, mod_succ_limb a, mod_succ_limb P.p, setLimb_limb _ _ _ _ _ (by omega : m < P.n), if_pos rfl,
+      Nat.mod_eq_of_lt c1,
+      mod_eq_of_limbs m (setLimb P.n o m _) o (fun j hj => by rw [setLimb_limb _ _ _ _ _ (by omega), if_neg (by omega)])]
+    have e : 2 ^ (64 * (m + 1)) = 2 ^ (64 * m) * 2 ^ 64 := by rw [Nat.mul_succ, Nat.pow_add]
+    rw [e]
+    zify at ie c3 ⊢
+    linear_combination ie + (2 : Int) ^ (64 * m) * c3
+
+theorem fp_neg_eq (P : RefParams) (hV : SqiProofs.GfRef.Valid P) (out a : Nat) (ha : a < P.R) :
+    SqiGen.FpRef.fp_neg P out a = Ref.fp_neg P a := by
+  unfold SqiGen.FpRef.fp_neg Ref.fp_neg
+  have h0 : u32 0 = 0 := rfl
+  simp only [h0]
+  congr 1
+  obtain ⟨hb, he⟩ := neg_loop P a out P.n (Nat.le_refl _)
+  have hn := hV.hn
+  have hlt : (loopAcc 0 P.n (SqiGen.FpRef.fp_neg_loop_1 P a) (out, 0)).1 < 2 ^ (64 * P.n) := by
+    have hs := loopAcc_succ 0 (P.n - 1) (Nat.zero_le _) (SqiGen.FpRef.fp_neg_loop_1 P a) (out, 0)
+    rw [Nat.sub_add_cancel hn] at hs
+    rw [hs]
+    generalize loopAcc 0 (P.n - 1) (SqiGen.FpRef.fp_neg_loop_1 P a) (out, 0) = s0
+    show setLimb P.n _ _ _ < _
+    unfold setLimb
+    exact ofLimbs_lt _ _
+  have hR : P.R = 2 ^ (64 * P.n) := rfl
+  have hp := hV.hpR
+  rw [hR] at ha hp ⊢
+  rw [Nat.mod_eq_of_lt hlt, Nat.mod_eq_of_lt ha, Nat.mod_eq_of_lt hp] at he
+  generalize (loopAcc 0 P.n (SqiGen.FpRef.fp_neg_loop_1 P a) (out, 0)) = s at hb he hlt ⊢
+  obtain ⟨o, b⟩ := s
+  simp only at hb he hlt ⊢
+  generalize 2 ^ (64 * P.n) = R at *
+  by_cases hle : a ≤ P.p
+  · have hb0 : b = 0 := by
+      rcases (by omega : b = 0 ∨ b = 1) with h | h
+      · exact h
+      · subst h; omega
+    subst hb0
+    have : P.p + R - a = (P.p - a) + R := by omega
+    rw [this, Nat.add_mod_right, Nat.mod_eq_of_lt (by omega)]; omega
+  · have hb1 : b = 1 := by
+      rcases (by omega : b = 0 ∨ b = 1) with h | h
+      · subst h; omega
+      · exact h
+    subst hb1
+    rw [Nat.mod_eq_of_lt (by omega)]; omega
+
+/-! ## `fp_sqrt` -/
+
+theorem oddMask_eq (t : Nat) : u32 (negw 32 (u32 (limb t 0) &&& 1)) = oddMask (t % W) := by
+  unfold oddMask W
+  rw [Nat.and_one_is_mod]
+  have e : u32 (limb t 0) % 2 = t % 2 := by unfold u32 limb; omega
+  rw [e]
+  have e2 : t % 2 ^ 64 % 2 = t % 2 := by omega
+  rw [e2]
+  rcases (by omega : t % 2 = 0 ∨ t % 2 = 1) with h | h <;> rw [h] <;> simp [negw, u32, T32]
+
+section dom3
+variable {P : RefParams} [Fact P.p.Prime] (hV : SqiProofs.GfRef.Valid P)
+include hV
+
+theorem fp_sqrt_eq (a : Nat) (ha : a < P.p) : SqiGen.FpRef.fp_sqrt P a = Ref.fp_sqrt P a := by
+  unfold SqiGen.FpRef.fp_sqrt Ref.fp_sqrt
+  simp only [fp_exp3div4_eq P, oddMask_eq]
+  have h0 := (SqiProofs.GfRef.fp_exp3div4_spec hV ha).1
+  have h1 := (SqiProofs.GfRef.fp_mul_spec hV h0 ha).1
+  have h2 := (SqiProofs.GfRef.fp_frommont_spec hV h1).1
+  have h3 := (SqiProofs.GfRef.fp_neg_spec hV h1).1
+  have hR := hV.hpR
+  rw [fp_neg_eq P hV _ _ (Nat.lt_trans h1 hR)]
+  exact fp_select_eq P _ _ _ _ (Nat.lt_trans h1 hR) (Nat.lt_trans h1 hR) (Nat.lt_trans h3 hR)
+
+end dom3
+
+/-! ## `fp_cswap` -/
+
+theorem cswap_loop (P : RefParams) (cw a b : Nat) (ha : a < 2 ^ (64 * P.n)) (hb : b < 2 ^ (64 * P.n)) (m : Nat) (hm : m ≤ P.n) :
+    let s := loopAcc 0 m (SqiGen.FpRef.fp_cswap_loop_1 P cw) (0, a, b)
+    s.2.1 < 2 ^ (64 * P.n) ∧ s.2.2 < 2 ^ (64 * P.n) ∧
+    (∀ j < P.n, limb s.2.1 j = if j < m then limb a j ^^^ (cw &&& (limb a j ^^^ limb b j)) else limb a j) ∧
+    (∀ j < P.n, limb s.2.2 j = if j < m then limb b j ^^^ (cw &&& (limb a j ^^^ limb b j)) else limb b j) := by
+  induction m with
+  | zero =>
+    rw [loopAcc_zero]
+    exact ⟨ha, hb, fun j _ => by simp, fun j _ => by simp⟩
+  | succ m ih =>
+    obtain ⟨i1, i2, i3, i4⟩ := ih (by omega)
+    rw [loopAcc_succ 0 m (Nat.zero_le _)]
+    generalize loopAcc 0 m (SqiGen.FpRef.fp_cswap_loop_1 P cw) (0, a, b) = s at i1 i2 i3 i4 ⊢
+    obtain ⟨t, A, B⟩ := s
+    simp only at i1 i2 i3 i4
+    have hmn : m < P.n := by omega
+    have eA : limb A m = limb a m := by rw [i3 m hmn, if_neg (by omega)]
+    have eB : limb B m = limb b m := by rw [i4 m hmn, if_neg (by omega)]
+    have hx : cw &&& (limb a m ^^^ limb b m) < 2 ^ 64 := Nat.and_lt_two_pow _ (Nat.xor_lt_two_pow (limb_lt _ _) (limb_lt _ _))
+    simp only [SqiGen.FpRef.fp_cswap_loop_1, eA, eB, u64, Nat.mod_eq_of_lt hx]
+    refine ⟨ofLimbs_lt _ _, ofLimbs_lt _ _, fun j hj => ?_, fun j hj => ?_⟩
+    · rw [setLimb_limb _ _ _ _ _ hj]
+      by_cases e : j = m
+      · subst e
+        rw [if_pos rfl, if_pos (by omega)]
+        exact Nat.mod_eq_of_lt (Nat.xor_lt_two_pow (limb_lt _ _) hx)
+      · rw [if_neg e, i3 j hj]
+        by_cases e2 : j < m
+        · rw [if_pos e2, if_pos (by omega)]
+        · rw [if_neg e2, if_neg (by omega)]
+    · rw [setLimb_limb _ _ _ _ _ hj]
+      by_cases e : j = m
+      · subst e
+        rw [if_pos rfl, if_pos (by omega)]
+        exact Nat.mod_eq_of_lt (Nat.xor_lt_two_pow (limb_lt _ _) hx)
+      · rw [if_neg e, i4 j hj]
+        by_cases e2 : j < m
+        · rw [if_pos e2, if_pos (by omega)]
+        · rw [if_neg e2, if_neg (by omega)]
+
+theorem fp_cswap_eq (P : RefParams) (a b ctl : Nat) (ha : a < P.R) (hb : b < P.R) :
+    SqiGen.FpRef.fp_cswap P a b ctl = Ref.fp_cswap P a b ctl := by
+  unfold SqiGen.FpRef.fp_cswap Ref.fp_cswap
+  simp only [sext32_eq]
+  have hR : P.R = 2 ^ (64 * P.n) := rfl
+  rw [hR] at ha hb
+  obtain ⟨l1, l2, l3, l4⟩ := cswap_loop P (Ref.ctlWord ctl) a b ha hb P.n (Nat.le_refl _)
+  have hc := ctlWord_lt ctl
+  have hr := replLimb_lt P.n _ hc
+  have ht : Ref.replLimb P.n (Ref.ctlWord ctl) &&& (a ^^^ b) < 2 ^ (64 * P.n) := Nat.and_lt_two_pow _ (Nat.xor_lt_two_pow ha hb)
+  refine Prod.ext ?_ ?_
+  · refine eq_of_limbs P.n _ _ l1 (Nat.xor_lt_two_pow ha ht) (fun j hj => ?_)
+    rw [l3 j hj, if_pos hj, limb_xor, limb_and, limb_xor, limb_replLimb _ _ _ hc hj]
+  · refine eq_of_limbs P.n _ _ l2 (Nat.xor_lt_two_pow hb ht) (fun j hj => ?_)
+    rw [l4 j hj, if_pos hj, limb_xor, limb_and, limb_xor, limb_replLimb _ _ _ hc hj]
 
 end SqiProofs.FpRefGen
